@@ -93,6 +93,28 @@ fn typed<T: SwiftMessageBody>(raw: &str) -> Value {
     }
 }
 
+/// jrt: parse -> serde_json::to_value -> from_value -> compare (value again as JSON, Debug, MT text); also the same
+/// through a JSON string (to_string / from_str)
+fn jrt<T: SwiftMessageBody + serde::de::DeserializeOwned + PartialEq>(raw: &str) -> Value {
+    match SwiftParser::parse::<T>(raw) {
+        Ok(m) => {
+            let v = serde_json::to_value(&m).unwrap_or(Value::Null);
+            let mt = m.to_mt_message();
+            let back: Result<swift_mt_message::SwiftMessage<T>, _> = serde_json::from_value(v.clone());
+            let text = serde_json::to_string(&m).unwrap_or_default();
+            let back2: Result<swift_mt_message::SwiftMessage<T>, _> = serde_json::from_str(&text);
+            let f = |b: &Result<swift_mt_message::SwiftMessage<T>, serde_json::Error>| match b {
+                Ok(b) => json!({"ok": true, "json_equal": serde_json::to_value(b).ok() == Some(v.clone()),
+                                "debug_equal": format!("{:?}", b) == format!("{:?}", m), "fields_equal": b.fields == m.fields,
+                                "mt_equal": b.to_mt_message() == mt, "mt": b.to_mt_message()}),
+                Err(e) => json!({"ok": false, "display": e.to_string()}),
+            };
+            json!({"ok": true, "json": v, "mt": mt, "via_value": f(&back), "via_string": f(&back2)})
+        }
+        Err(e) => err_json(&e),
+    }
+}
+
 fn custom(name: &str, input: Value) -> FunctionConfig {
     FunctionConfig::Custom { name: name.to_string(), input }
 }
@@ -118,6 +140,14 @@ pub fn run(rt: &tokio::runtime::Runtime, cols: &[&str]) -> Value {
                 Err(e) => return json!({"bad_case": e}),
             };
             with_mt!(cols[1], T => typed::<T>(&raw), json!({"bad_case": "unknown type"}))
+        }
+        // jrt <MTnnn> <hex raw message>: JSON round trip of the parsed message
+        "jrt" => {
+            let raw = match unhex_str(cols[2]) {
+                Ok(s) => s,
+                Err(e) => return json!({"bad_case": e}),
+            };
+            with_mt!(cols[1], T => jrt::<T>(&raw), json!({"bad_case": "unknown type"}))
         }
         // vjson <MTnnn> <hex JSON of the message body>: serde_json::from_str::<T>, then validate_network_rules on the value
         "vjson" => {
@@ -317,7 +347,8 @@ pub fn run(rt: &tokio::runtime::Runtime, cols: &[&str]) -> Value {
                         };
                         // JSON round trip of the field value (serde_json::Value level)
                         let json_rt = match serde_json::from_value::<T>(j.clone()) {
-                            Ok(v3) => serde_json::to_value(&v3).ok() == Some(j.clone()) && v3.to_swift_string() == ser,
+                            // the value itself (Debug), not only its two renderings: a date read back in another century prints the same
+                            Ok(v3) => serde_json::to_value(&v3).ok() == Some(j.clone()) && v3.to_swift_string() == ser && format!("{:?}", v3) == format!("{:?}", v),
                             Err(_) => false,
                         };
                         json!({"ok": true, "ser": ser, "json": j, "printed": body, "variant_tag": v.get_variant_tag(), "debug": format!("{:?}", v), "json_rt": json_rt,
